@@ -113,15 +113,17 @@ type spec struct {
 	dataSeg     bool
 	oobSeg      bool
 	elemSeg     bool
+	elemNull    bool // the element segment has a second item, ref.null, which clears the slot after the first
 	ownInit     bool // own mutable i32 global initialised from the imported immutable global
 	start       int  // 0 none, 1 writes cell 31, 2 writes then traps
 	constVal    int32
 	memMin      int  // declared minimum of the memory import (0 = 1 page)
+	tabMin      int  // declared minimum of the table import (0 = the initial size)
 	noTabExport bool // an imported table is not re-exported by this module
 }
 
 func (s *spec) describe() string {
-	return fmt.Sprintf("m%d{mem<-%d tab<-%d globals<-%v funcs<-%v%v twist=%q data=%v oob=%v elem=%v ownInit=%v start=%d const=%d}", s.idx, s.memFrom, s.tabFrom, s.gFrom, s.impFn, s.impName, s.twist, s.dataSeg, s.oobSeg, s.elemSeg, s.ownInit, s.start, s.constVal)
+	return fmt.Sprintf("m%d{mem<-%d tab<-%d globals<-%v funcs<-%v%v tabMin=%d twist=%q data=%v oob=%v elem=%v/%v ownInit=%v start=%d const=%d}", s.idx, s.memFrom, s.tabFrom, s.gFrom, s.impFn, s.impName, s.tabMin, s.twist, s.dataSeg, s.oobSeg, s.elemSeg, s.elemNull, s.ownInit, s.start, s.constVal)
 }
 
 // gcUsable: the immutable i32 global is imported with its proper type, so
@@ -219,6 +221,13 @@ func build(s *spec, specs []*spec) []byte {
 			nImpG++
 		}
 	}
+	// the same exported global imported a second time: both import indexes name one object
+	aliasG := -1
+	if s.gFrom[gI32] >= 0 && effMut[gI32] && effType[gI32] == wasmb.I32 && !strings.HasPrefix(s.twist, "global-") {
+		m.Imports = append(m.Imports, wasmb.Import{Module: modName(s.gFrom[gI32]), Name: fmt.Sprintf("g%d", gI32), Kind: wasmb.KindGlobal, GlobalType: wasmb.I32, GlobalMut: true})
+		aliasG = int(nImpG)
+		nImpG++
+	}
 	if s.memFrom >= 0 {
 		lim := wasmb.Limits{Min: 1, Max: memMax, HasMax: true}
 		if s.memMin > 0 {
@@ -233,6 +242,8 @@ func build(s *spec, specs []*spec) []byte {
 			if lim.Min > lim.Max {
 				lim.Min = 1
 			}
+		case "mem-shared":
+			lim.Shared = true // the exported memory is not shared
 		}
 		m.Imports = append(m.Imports, wasmb.Import{Module: modName(s.memFrom), Name: "mem", Kind: wasmb.KindMemory, Mem: lim})
 	} else {
@@ -240,6 +251,9 @@ func build(s *spec, specs []*spec) []byte {
 	}
 	if s.tabFrom >= 0 {
 		tb := wasmb.Table{Elem: wasmb.FuncRef, Lim: wasmb.Limits{Min: tabInit, Max: 16, HasMax: true}}
+		if s.tabMin > 0 {
+			tb.Lim.Min = uint32(s.tabMin)
+		}
 		switch s.twist {
 		case "tab-min":
 			tb.Lim.Min = 40
@@ -267,6 +281,10 @@ func build(s *spec, specs []*spec) []byte {
 			gidx[k] = nImpG + uint32(len(m.Globals)-1)
 		}
 	}
+	// a private global holding the instance's index: "id" reads it, so a function that survives in a
+	// shared table depends on its own instance's state being in place
+	m.Globals = append(m.Globals, wasmb.Global{Type: wasmb.I32, Mut: true, Init: wasmb.ConstI32(int32(s.idx))})
+	ownG := nImpG + uint32(len(m.Globals)-1)
 	for k := 0; k < nGlobals; k++ {
 		m.Exports = append(m.Exports, wasmb.Export{Name: fmt.Sprintf("g%d", k), Kind: wasmb.KindGlobal, Idx: gidx[k]})
 	}
@@ -277,7 +295,7 @@ func build(s *spec, specs []*spec) []byte {
 	// functions
 	tI := m.AddType(i32, i32)
 	c := func() *wasmb.Code { return &wasmb.Code{} }
-	idFn := m.AddFunc(i32, i32, nil, c().LocalGet(0).I32Const(10).I32Mul().I32Const(int32(s.idx)).I32Add().B, "id")
+	idFn := m.AddFunc(i32, i32, nil, c().LocalGet(0).I32Const(10).I32Mul().GlobalGet(ownG).I32Add().B, "id")
 	m.AddFunc(i32, i32, nil, c().LocalGet(0).I32Const(8).I32Mul().I32Load(0).B, "rd_cell")
 	m.AddFunc([]wasmb.ValType{wasmb.I32, wasmb.I32}, nil, nil, c().LocalGet(0).I32Const(8).I32Mul().LocalGet(1).I32Store(0).B, "wr_cell")
 	m.AddFunc(nil, i32, nil, c().MemorySize().B, "mem_size")
@@ -313,6 +331,10 @@ func build(s *spec, specs []*spec) []byte {
 		}
 		m.AddFunc(nil, i32, []wasmb.ValType{wasmb.I32}, c().GlobalGet(gidx[gI32]).LocalSet(0).Call(bump).GlobalGet(gidx[gI32]).LocalGet(0).I32Sub().B, "g_across")
 	}
+	if aliasG >= 0 {
+		// read through one import index, write through the other, read again: old + new
+		m.AddFunc(i32, i32, nil, c().GlobalGet(uint32(aliasG)).LocalGet(0).GlobalSet(gidx[gI32]).GlobalGet(uint32(aliasG)).I32Add().B, "g_alias")
+	}
 	m.AddFunc(nil, i32, nil, c().TableSize(0).B, "tab_size")
 	m.AddFunc(i32, i32, nil, c().RefNull(wasmb.FuncRef).LocalGet(0).TableGrow(0).B, "tab_grow")
 	m.AddFunc(i32, nil, nil, c().LocalGet(0).RefFunc(idFn).TableSet(0).B, "tab_set")
@@ -344,7 +366,11 @@ func build(s *spec, specs []*spec) []byte {
 		return wasmb.ConstI32(s.constVal)
 	}
 	if s.elemSeg {
-		m.Elems = append(m.Elems, wasmb.Elem{Mode: 0, Offset: off(), Funcs: []uint32{idFn}})
+		if s.elemNull {
+			m.Elems = append(m.Elems, wasmb.Elem{Mode: 0, Offset: off(), Funcs: []uint32{idFn, 0}, NullAt: map[int]bool{1: true}})
+		} else {
+			m.Elems = append(m.Elems, wasmb.Elem{Mode: 0, Offset: off(), Funcs: []uint32{idFn}})
+		}
 	}
 	// (no declarative segment: id is exported, which already makes ref.func id valid; a module without
 	// an active segment thus has NO element section at all)
@@ -394,6 +420,9 @@ func (r *runner) compatible(s *spec) (bool, string) {
 	if s.memFrom >= 0 && s.memMin > r.insts[s.memFrom].mem.pages {
 		return false, fmt.Sprintf("memory import minimum %d > current size %d", s.memMin, r.insts[s.memFrom].mem.pages)
 	}
+	if s.tabFrom >= 0 && s.tabMin > len(r.insts[s.tabFrom].tab.slots) {
+		return false, fmt.Sprintf("table import minimum %d > current size %d", s.tabMin, len(r.insts[s.tabFrom].tab.slots))
+	}
 	return true, ""
 }
 
@@ -415,6 +444,7 @@ func (c04) Run(t *tape.Tape, cfg sim.Config) (res sim.Result) {
 	if t.Chance(1, 2) {
 		rc = rc.WithMemoryCapacityFromMax(true) // growth then happens inside the existing capacity
 	}
+	rc = rc.WithCoreFeatures(api.CoreFeaturesV2 | experimental.CoreFeaturesThreads)
 	r.rt = wazero.NewRuntimeWithConfig(ctx, rc)
 	defer r.rt.Close(ctx)
 	ninit := t.Range(2, 3)
@@ -510,8 +540,21 @@ func (r *runner) instantiate(twisted bool) {
 			s.memMin = 0
 		}
 	}
+	if s.tabFrom >= 0 {
+		cur := len(r.insts[s.tabFrom].tab.slots)
+		switch t.Weighted(3, 2, 1) {
+		case 1:
+			s.tabMin = cur // the CURRENT size (after table.grow): compatible
+		case 2:
+			s.tabMin = cur + 1 // incompatible
+		}
+		if s.tabMin > 16 {
+			s.tabMin = 0
+		}
+	}
 	s.dataSeg = t.Chance(1, 2)
 	s.elemSeg = t.Chance(1, 2)
+	s.elemNull = s.elemSeg && t.Chance(1, 3)
 	s.ownInit = t.Chance(1, 2)
 	s.start = t.Weighted(6, 2, 1)
 	s.oobSeg = t.Chance(1, 8)
@@ -526,7 +569,7 @@ func (r *runner) instantiate(twisted bool) {
 			}
 		}
 		if s.memFrom >= 0 {
-			opts = append(opts, "mem-min", "mem-max")
+			opts = append(opts, "mem-min", "mem-max", "mem-shared")
 		}
 		if s.tabFrom >= 0 {
 			opts = append(opts, "tab-min", "tab-max")
@@ -535,6 +578,9 @@ func (r *runner) instantiate(twisted bool) {
 			s.twist = opts[t.Choose(len(opts))]
 			if s.memFrom >= 0 && s.memMin > r.insts[s.memFrom].mem.pages {
 				s.memMin = 0 // exactly one incompatibility per module
+			}
+			if s.tabFrom >= 0 && (s.tabMin > len(r.insts[s.tabFrom].tab.slots) || strings.HasPrefix(s.twist, "tab-")) {
+				s.tabMin = 0
 			}
 		}
 	}
@@ -581,15 +627,26 @@ func (r *runner) instantiate(twisted bool) {
 		}
 	}
 	// instantiation effects in specification order: element segment, data segments, start
+	nullProbe, nullPrev := -1, fnRef{}
 	effects := func() bool {
 		offV := s.constVal
 		if s.gcUsable() {
 			offV = int32(uint32(in.globs[gConst].bits))
 		}
-		if s.elemSeg && int(offV)+1 <= len(in.tab.slots) {
+		n := 1
+		if s.elemNull {
+			n = 2
+		}
+		if s.elemSeg && int(offV)+n <= len(in.tab.slots) {
 			// (an out-of-bounds active element segment is documented by wazero as
 			// ignored rather than failing the instantiation: store.go applyElements)
 			in.tab.slots[offV] = fnRef{inst: idx}
+			if s.elemNull {
+				if prev := in.tab.slots[offV+1]; prev.inst >= 0 {
+					nullProbe, nullPrev = int(offV)+1, prev
+				}
+				in.tab.slots[offV+1] = fnRef{inst: -1} // ref.null overwrites what was there
+			}
 		}
 		if s.dataSeg {
 			if int(offV)+4 > in.mem.pages*65536 {
@@ -626,6 +683,22 @@ func (r *runner) instantiate(twisted bool) {
 	if (err == nil) != wantOK {
 		r.res.Fail("link-compatibility", "%s: model says instantiation ok=%v (%s), wazero returned %v", what, wantOK, why, errLine(err))
 		return
+	}
+	if nullProbe >= 0 {
+		// recorded known finding: a ref.null item of an active element segment does not overwrite the
+		// entry an imported table already holds.  Probed right here, through any instance on this table.
+		probe := mod
+		for _, o := range r.insts {
+			if probe == nil && o != nil && o.mod != nil && !o.mod.IsClosed() && o.tab == in.tab {
+				probe = o.mod
+			}
+		}
+		if probe != nil {
+			if res, perr := probe.ExportedFunction("tab_isnull").Call(r.ctx, uint64(nullProbe)); perr == nil && res[0] == 0 {
+				r.res.Known = append(r.res.Known, "null-element-item-does-not-overwrite")
+				in.tab.slots[nullProbe] = nullPrev
+			}
+		}
 	}
 	if err != nil {
 		r.res.Stat("fault.failed_instantiation", 1)
@@ -897,6 +970,22 @@ func (r *runner) step() {
 			r.res.Fail("view-diverged", "m%d.xg%d(): table.grow executed by m%d's function on its own table returned/left %d, model expects %d (m%d table %d entries, m%d table %d entries)", in.idx, k, other.idx, got, want, other.idx, len(other.tab.slots), in.idx, len(in.tab.slots))
 		}
 	case 11: // a callee bumps the shared mutable global while the caller holds its old value
+		if in.mod.ExportedFunction("g_alias") != nil && t.Chance(1, 2) {
+			v := int32(t.Choose(1 << 20))
+			res, err := r.call(in, "g_alias", uint64(uint32(v)))
+			r.log("m%d.g_alias(%d)", in.idx, v)
+			if err != nil {
+				r.res.Fail("unexpected-trap", "m%d.g_alias failed: %v", in.idx, errLine(err))
+				return
+			}
+			old := int32(uint32(in.globs[gI32].bits))
+			in.globs[gI32].bits = uint64(uint32(v))
+			r.noteWrite(in.globs[gI32], in.idx)
+			if got := int32(uint32(res[0])); got != old+v {
+				r.res.Fail("view-diverged", "m%d.g_alias(%d): the global imported twice was read as %d through one import index after %d was written through the other (old value %d)", in.idx, v, got-old, v, old)
+			}
+			return
+		}
 		if in.mod.ExportedFunction("g_across") == nil {
 			return
 		}
